@@ -3222,6 +3222,7 @@ def slice_ppart_by_time(
             if ts["time"] >= start_time and ts["time"] <= end_time:
                 new_ts = ts.copy()
                 new_ts["time"] -= start_time
+                time_signatures.append(new_ts)
     key_signatures = []
     meta_other = []
 
